@@ -378,6 +378,10 @@ func c06RealtimeFeed() *gtfsrt.FeedMessage {
 	}
 	m.Entity = append(m.Entity, &gtfsrt.FeedEntity{Id: sp("vp"), Vehicle: &gtfsrt.VehiclePosition{Vehicle: &gtfsrt.VehicleDescriptor{Id: sp("V2")}, StopId: sp("VS2")}})
 	m.Entity = append(m.Entity, &gtfsrt.FeedEntity{Id: sp("vp0"), Vehicle: &gtfsrt.VehiclePosition{StopId: sp("VS0")}})
+	// vehicles that tie on the id: known by label or licence plate only, or sharing an id and differing in the label
+	for i, vd := range []*gtfsrt.VehicleDescriptor{{Label: sp("bus C")}, {Label: sp("bus A")}, {LicensePlate: sp("plate B")}, {Id: sp("X"), Label: sp("2")}, {Id: sp("X"), Label: sp("1")}} {
+		m.Entity = append(m.Entity, &gtfsrt.FeedEntity{Id: sp(fmt.Sprintf("tied%d", i)), Vehicle: &gtfsrt.VehiclePosition{Vehicle: vd, StopId: sp(fmt.Sprintf("VT%d", i))}})
+	}
 	// determinism is claimed for every input, conflicting ones included: a trip claimed by two
 	// vehicles and a vehicle claimed by two trips
 	m.Entity = append(m.Entity, &gtfsrt.FeedEntity{Id: sp("claim1"), Vehicle: &gtfsrt.VehiclePosition{Vehicle: &gtfsrt.VehicleDescriptor{Id: sp("W1")}, Trip: &gtfsrt.TripDescriptor{TripId: sp("T3"), RouteId: sp("R")}}})
